@@ -80,6 +80,14 @@ def execute(prop, trace):
     import random as _random
     from .rng import derive
     _random.seed(derive(trace.get('seed', 0), 'global-prng', trace.get('run', 0)))
+    try:
+        return _execute(prop, trace)
+    finally:
+        from ..seams import simio
+        simio.cleanup_all()          # scratch directories of the simulated file systems of this run
+
+
+def _execute(prop, trace):
     budget = trace.get('step_budget')
     if not budget:
         res = prop.execute(trace)
